@@ -39,12 +39,13 @@ Definition EDelDef : rs := EDeleteDefault.
 Definition EDec : rs := EDecrypt.
 Definition ESchName : rs := ESchemeName.
 Definition ENoDef : rs := ENoDefault.
+Definition ESav : rs := ESave.
 
 Definition res_eqb (a b : rs) : bool :=
   match a, b with
   | ROk, ROk | RNil, RNil | EEmptyPwd, EEmptyPwd | ESigScheme, ESigScheme | EDupLabel, EDupLabel | EDupAddr, EDupAddr
   | ENotFound, ENotFound | EDeleteDefault, EDeleteDefault | EDecrypt, EDecrypt | ESchemeName, ESchemeName
-  | ENoDefault, ENoDefault => true
+  | ENoDefault, ENoDefault | ESave, ESave => true
   | RKey k, RKey k' => N.eqb k k'
   | _, _ => false
   end.
@@ -168,6 +169,12 @@ Inductive case :=
         (pwds addrs labels olabels : list string)
         (n_pre n_post : nat) (pre post : view)
         (file_prm : scrypt) (file : list meta)
+(** one wallet, each operation issued with saves blocked (true) or not *)
+| CHistF (prm : scrypt) (ops : list (bool * op N)) (results : list rs)
+         (tracker : ghost N) (obliged : bool)
+         (pwds addrs labels olabels : list string)
+         (n_pre n_post : nat) (pre post : view)
+         (file_prm : scrypt) (file : list meta)
 (** several wallets in one process: the interleaved operations, their outcomes, and for each open
     wallet what CHist records for one *)
 | CMulti (mops : list (mop N)) (results : list rs) (obliged : bool)
@@ -183,6 +190,15 @@ Definition case_ok (c : case) : bool :=
     view_eqb (view_of w n_pre pwds addrs labels olabels) pre &&
     view_eqb (view_of (reload iblob w) n_post pwds addrs labels olabels) post &&
     (* the JSON file is [save w] *)
+    scrypt_eqb (fst (save iblob w)) file_prm &&
+    list_eqb meta_eqb (map meta_of (snd (save iblob w))) file
+  | CHistF prm ops results tracker obliged pwds addrs labels olabels n_pre n_post pre post file_prm file =>
+    let '(w, g, rs') := run_sf N iblob ienc idec (init iblob prm) [] ops in
+    list_eqb res_eqb rs' results &&
+    ghost_eqb addrs g tracker && ghost_eqb addrs tracker g &&
+    Bool.eqb (caller_okb (init iblob prm) (map snd ops)) obliged &&
+    view_eqb (view_of w n_pre pwds addrs labels olabels) pre &&
+    view_eqb (view_of (reload iblob w) n_post pwds addrs labels olabels) post &&
     scrypt_eqb (fst (save iblob w)) file_prm &&
     list_eqb meta_eqb (map meta_of (snd (save iblob w))) file
   | CMulti mops results obliged pwds addrs labels olabels obs =>
